@@ -398,6 +398,11 @@ func init() {
 			for i := range tt.Elems {
 				w := widths(tt)[i]
 				derived := []string{" " + b.vals[i], b.vals[i] + " ", "\t" + b.vals[i], "\u00a0" + b.vals[i], "  " + b.vals[i] + "  ", strings.ToLower(b.vals[i])}
+				if w > 0 {
+					// over-width values whose first w characters are degenerate (validation sees the whole value, the writer
+					// emits the first w characters only)
+					derived = append(derived, strings.Repeat("0", w)+b.vals[i], strings.Repeat(".", w)+b.vals[i], strings.Repeat(",", w)+b.vals[i], b.vals[i]+b.vals[i]+b.vals[i])
+				}
 				for hi, h := range append(append([]string{}, hostile...), derived...) {
 					if hi < len(hostile) && w >= 0 && len(h) > w {
 						continue
